@@ -1240,4 +1240,120 @@ theorem CInv.not_dropped_in_flight {g : Graph} {s : State} (ci : CInv g s) (v n 
   have hk : Walk g v s := (ci.walk v).resolve_right (by rw [hpc]; simp [pcFailed])
   exact hk.a n (List.mem_of_getLast? (ci.pc v n ph dir uid tag wait hpc).1)
 
+/-! ## what the run-level statement of C05 needs besides the invariant -/
+
+/-- worker `v` lies within the scope the clean decision of worker `w` waits for (`default_clean_decision`: the
+cleaning worker's swarm id occurs in the id of the involved worker, or the cleaning worker is a `localhost` one) -/
+def InScope (g : Graph) (w v : Nat) : Bool :=
+  (g.worker w).swarm == "localhost" || strIn (g.worker w).swarm (g.worker v).id
+
+/-- all workers wait for each other: one swarm (or `localhost` workers) -/
+def OneScope (g : Graph) : Prop :=
+  ∀ w, w < g.workers.length → ∀ v, v < g.workers.length → InScope g w v = true
+
+instance (g : Graph) : Decidable (OneScope g) := by unfold OneScope; infer_instance
+
+/-- a node sets states of its own objects only -/
+def SetsInObjs (g : Graph) : Prop :=
+  ∀ n, n < g.nodes.length → ∀ vs ∈ (g.node n).sets, vs.1 ∈ (g.node n).objs
+
+instance (g : Graph) : Decidable (SetsInObjs g) := by unfold SetsInObjs; infer_instance
+
+/-- the (decidable) well-formedness of the static description that the run-level theorems assume -/
+def WellFormed (g : Graph) (ncls : Nat) : Prop :=
+  graphWF g = true ∧ ownerNamesB g = true ∧ FlatClass g ∧ EdgeSym g ∧ CopyUniq g ∧ RootTop g ∧ ClsOk g ncls ∧ SetsInObjs g
+
+instance (g : Graph) (ncls : Nat) : Decidable (WellFormed g ncls) := by unfold WellFormed; infer_instance
+
+theorem WellFormed.hyp {g : Graph} {ncls : Nat} (h : WellFormed g ncls) : Hyp g :=
+  ⟨GraphWF.of_bool h.1, h.2.2.2.1, relUniq_of (ownerNamesB_sound h.2.1) h.2.2.1 h.2.2.2.2.1, h.2.2.2.2.2.1⟩
+
+/-- the node a worker is executing -/
+def pcNode : Pc → Option Nat
+  | .test n .. => some n
+  | _ => none
+
+/-- an `unset` request of `sync_states` is restricted to the acting worker's own pool -/
+theorem syncStates_unset_own (g : Graph) (s : State) (n v : Nat) (rv : Option (List String)) (wid : String)
+    (reqs : List (String × String)) (sc : List String) (ok : Bool)
+    (h : Event.door wid "unset" reqs sc ok ∈ (syncStates g s n v rv).2) : sc = ["own"] ∧ ok = true := by
+  unfold syncStates at h
+  dsimp only at h
+  by_cases hc : (syncAcc (g.node n) rv).1 = true
+  · simp only [hc, Bool.not_true, Bool.false_eq_true, if_false] at h
+    by_cases ha : (syncAcc (g.node n) rv).2.1 = "unset"
+    · simp only [ha, beq_self_eq_true, if_true, List.mem_singleton, Event.door.injEq] at h
+      exact ⟨h.2.2.2.1, h.2.2.2.2⟩
+    · have hne : ((syncAcc (g.node n) rv).2.1 == "unset") = false := by simpa using ha
+      simp only [hne, Bool.false_eq_true, if_false, List.mem_singleton, Event.door.injEq] at h
+      simp at h
+  · have : (syncAcc (g.node n) rv).1 = false := by simpa using hc
+    simp [this] at h
+
+/-- a positive clean decision is about the worker's own parsed copy, not a clone source, not a dry run -/
+theorem cleanDecision_true (g : Graph) (s : State) (n w : Nat) (h : cleanDecision g s n w = .ok true) :
+    (g.node n).flat = false ∧ (g.node n).cloneSource = false ∧ (g.node n).dryRun = false ∧ g.idIn w n = true := by
+  unfold cleanDecision at h
+  dsimp only at h
+  cases h1 : (g.node n).dryRun <;> cases h2 : (g.node n).flat <;> cases h3 : (g.node n).cloneSource <;>
+    cases h4 : g.idIn w n <;> simp [h1, h2, h3, h4] at h ⊢
+
+/-! ## instances for the witnesses of `Props/C05.lean` -/
+
+/-- two workers of DIFFERENT swarms; `p` (nodes 0, 1) sets the removable state `vm1/p` (`unset_mode=fi`); its dependants
+`c` (nodes 2, 3) and `d` (nodes 4, 5; two concurrent tries allowed); node 6 is the shared root -/
+def exCross : Graph :=
+  { workers := [{ id := "c1.net1", swarm := "c1" }, { id := "c2.net2", swarm := "c2" }],
+    nodes := [
+      { cls := 0, owner := some 0, name := "all.p.vms.vm1.nets.c1.net1", pfx := "1a1", objs := ["vm1"],
+        sets := [("vm1", "p")], unsetMode := [("vm1", "fi")], setup := [(6, ["vm1"])], cleanup := [(2, ["vm1"]), (4, ["vm1"])] },
+      { cls := 0, owner := some 1, name := "all.p.vms.vm1.nets.c2.net2", pfx := "1a1", objs := ["vm1"],
+        sets := [("vm1", "p")], unsetMode := [("vm1", "fi")], setup := [(6, ["vm1"])], cleanup := [(3, ["vm1"]), (5, ["vm1"])] },
+      { cls := 1, owner := some 0, name := "all.c.vms.vm1.nets.c1.net1", pfx := "2a1", objs := ["vm1"],
+        gets := [("vm1", "p")], setup := [(0, ["vm1"])] },
+      { cls := 1, owner := some 1, name := "all.c.vms.vm1.nets.c2.net2", pfx := "2a1", objs := ["vm1"],
+        gets := [("vm1", "p")], setup := [(1, ["vm1"])] },
+      { cls := 2, owner := some 0, name := "all.d.vms.vm1.nets.c1.net1", pfx := "3a1", objs := ["vm1"], mct := some 2,
+        gets := [("vm1", "p")], setup := [(0, ["vm1"])] },
+      { cls := 2, owner := some 1, name := "all.d.vms.vm1.nets.c2.net2", pfx := "3a1", objs := ["vm1"], mct := some 2,
+        gets := [("vm1", "p")], setup := [(1, ["vm1"])] },
+      { cls := 3, owner := none, name := "all.internal.stateless.noop", pfx := "1", flat := true, sharedRoot := true,
+        cleanup := [(0, ["vm1"]), (1, ["vm1"])] }],
+    root := 6 }
+
+/-- `c1.net1` produced `p` and runs `c`; `c2.net2` reused `p` (told to fetch it from `c1.net1`'s pool) and runs `d` -/
+def exX3 : State := runSched exCross 100 (initState exCross 4 [] []) [(0, exNoOut), (0, exPass), (1, exNoOut)]
+
+/-- the same two tests `p` (removable state; nodes 0, 1; the composite of the flat test 7) and `e` (nodes 2, 3; needs `p`
+and the plain setup `q`, nodes 4, 5; the composite of the flat test 8) expanded lazily: initially only the shared root
+(6) and the two flat tests exist -/
+def exLazyB : Graph :=
+  { workers := [{ id := "net1", swarm := "localhost" }, { id := "net2", swarm := "localhost" }],
+    nodes := [
+      { cls := 0, owner := some 0, name := "all.p.vms.vm1.nets.localhost.net1", pfx := "1a1", objs := ["vm1"],
+        sets := [("vm1", "p")], unsetMode := [("vm1", "fi")], setup := [(6, ["vm1"]), (7, [])], cleanup := [(2, ["vm1"])] },
+      { cls := 0, owner := some 1, name := "all.p.vms.vm1.nets.localhost.net2", pfx := "1a1", objs := ["vm1"],
+        sets := [("vm1", "p")], unsetMode := [("vm1", "fi")], setup := [(6, ["vm1"]), (7, [])], cleanup := [(3, ["vm1"])] },
+      { cls := 1, owner := some 0, name := "all.e.vms.vm1.nets.localhost.net1", pfx := "2a1", objs := ["vm1"],
+        gets := [("vm1", "p")], setup := [(4, ["vm1"]), (0, ["vm1"]), (8, [])] },
+      { cls := 1, owner := some 1, name := "all.e.vms.vm1.nets.localhost.net2", pfx := "2a1", objs := ["vm1"],
+        gets := [("vm1", "p")], setup := [(5, ["vm1"]), (1, ["vm1"]), (8, [])] },
+      { cls := 2, owner := some 0, name := "all.q.vms.vm1.nets.localhost.net1", pfx := "3a1", objs := ["vm1"],
+        setup := [(6, ["vm1"])], cleanup := [(2, ["vm1"])] },
+      { cls := 2, owner := some 1, name := "all.q.vms.vm1.nets.localhost.net2", pfx := "3a1", objs := ["vm1"],
+        setup := [(6, ["vm1"])], cleanup := [(3, ["vm1"])] },
+      { cls := 3, owner := none, name := "all.internal.stateless.noop", pfx := "1", flat := true, sharedRoot := true,
+        cleanup := [(7, []), (8, []), (0, ["vm1"]), (1, ["vm1"]), (4, ["vm1"]), (5, ["vm1"])] },
+      { cls := 4, owner := none, name := "all.p.vms.vm1", pfx := "1a", flat := true, setless := "all.p.vms.vm1",
+        setup := [(6, [])], cleanup := [(0, []), (1, [])] },
+      { cls := 5, owner := none, name := "all.e.vms.vm1", pfx := "2a", flat := true, setless := "all.e.vms.vm1",
+        setup := [(6, [])], cleanup := [(2, []), (3, [])] }],
+    root := 6 }
+
+/-- net1 expanded the flat test `p` for itself and runs its copy of `p`; net2 expanded the flat test `e` for itself
+(its copies of `e`, `p`, `q` exist now) and runs `q` first: it has not picked its copy of `p` yet -/
+def exB2 : State := runSched exLazyB 100 (initState exLazyB 6 [] [0, 1, 2, 3, 4, 5]) [(0, exNoOut), (1, exNoOut)]
+/-- … `p` passed on net1 -/
+def exB3 : State := (resume exLazyB exB2 0 exPass 100).1
+
 end I2N.Trav.Clean
